@@ -55,9 +55,9 @@ func c03Run(trim bool) {
 
 // consModel replays a single-user consumer's operations: base-relative read position after each op.
 type consTrack struct {
-	base      int   // absolute position of the first value it ever read (-1 unknown)
+	base      int     // absolute position of the first value it ever read (-1 unknown)
 	commits   []int64 // inv stamps of successful commits
-	commitCum []int // committed count after each of them
+	commitCum []int   // committed count after each of them
 }
 
 func trackConsumer(r *bufRun, k *bufCons) consTrack {
